@@ -21,7 +21,8 @@ EXPLANATION = (
     " (R11) the type the checker attaches to a record-field node is the type the TYPE declares for the element (or the type copied from the node being rewritten), never one made from the suffix the programmer wrote: the generator picks FixLength from it."
     " (R12) every emitted CopyAToVarPath pops a variable path that the same generator function built on the same emission path."
     " (R13 = C03.R1) the indices that point to memory blocks stay right when a block is removed."
-    " (R14) a name with a suffix resolves to the SHARED array of that name and suffix whenever the procedure has no variable of that name and suffix itself (shared with C13.R6): `Qty%(i)` does not turn into a call of an undefined function that reads 0.")
+    " (R14) a name with a suffix resolves to the SHARED array of that name and suffix whenever the procedure has no variable of that name and suffix itself (shared with C13.R6): `Qty%(i)` does not turn into a call of an undefined function that reads 0."
+    " (R15 = C03.R10) IndexedMap::insert appends only when the key is absent: a parameter that is assigned keeps its position, which is where the by-reference write-back reads it.")
 NOT_DECIDED = ["bijectivity of the flat index map (stride arithmetic) and element values (value-level)"]
 
 
@@ -845,3 +846,7 @@ def run(ctx):
     # array: the lookup falls back to the SHARED names exactly when its own lookup of that name and suffix misses
     from . import c13
     c13.r6_fallback_keyed_on_same_lookup(ctx, "C04.R14")
+    # an array element, a record field or a STRING * n handed by reference gets back the value its parameter holds now:
+    # a variable keeps its position in the callee's variable table however often it is assigned (shared with C03.R10)
+    from . import c03
+    c03.r10_indexed_map_insert(ctx, "C04.R15")
